@@ -3,7 +3,7 @@ from .. import simprop
 
 ID = "C13"
 FAMILY = "C13"
-VARIANTS = ("asan",)
+VARIANTS = ("asan", "rel")      # rel: only to re-judge a case that UBSan stopped (simprop)
 BUDGET = {"quick": dict(examples=80000, seconds=55), "thorough": dict(examples=2000000, seconds=540)}
 NONTRIVIAL = {'cond-mixed-outcomes', 'cond-forwarded-signal', 'cond-cancel', 'cond-remove'}
 PROFILES = [(4, 'condition'), (1, 'mixed')]
